@@ -29,11 +29,18 @@ def run(tier, seed):
     verify_contracts(eng, [c for c in estimators.hier_contracts if c.setup], chk)
     eng = engine(estimators.hh2_contracts)
     verify_contracts(eng, [c for c in estimators.hh2_contracts if c.setup], chk)
+    from contracts import prolongate
+    eng = common.new_engine(prolongate.contracts, "C20")
+    arrays.install(eng)
+    extio.install(eng)
+    prolongate.install(eng)
+    verify_contracts(eng, prolongate.contracts, chk)
     from vlib import smt
     smt.close_pool()
     try:
         from bounded import estimator_rel
         guarded(chk, 'bounded part estimator_rel.run_c20', estimator_rel.run_c20, chk, tier, seed)
+        guarded(chk, 'bounded part estimator_rel.run_prolongate', estimator_rel.run_prolongate, chk, tier, seed)
     except ImportError:
         chk.notes.append("bounded comparison with real bisection not built yet")
     return chk.finish()
